@@ -502,6 +502,15 @@ static bool known_class(const std::string& cls) { for (int i = 0; C16_CLASSES[i]
 // ------------------------------------------------------------------ mutators: re-parameterise a live object in place
 // (event sN:P).  Afterwards the object must behave exactly like a fresh object built from parameter set P.
 //   RNSsystem::setPrimes(domains)            Modular<T>::read(istream&) / Modular<Log16>::read(istream&)   "(z, <p>)"
+// read() from a truncated / malformed text (event fN:q, q = P + 4 * variant): "(z, <p>"  "(z <p>)"  ""  "(z, "
+template <class BOX> static bool mutate_read_bad(Any* a, const std::string& cls, int q) {
+    BOX* b = static_cast<BOX*>(a);
+    Any* f = make(cls, q & 3); Integer p = toI(static_cast<BOX*>(f)->d.characteristic()); delete f;
+    std::stringstream ss; int t = (q >> 2) & 3;
+    if (t == 0) ss << "(z, " << p; else if (t == 1) ss << "(z " << p << ")"; else if (t == 3) ss << "(z, ";
+    b->d.read(ss);
+    return true;
+}
 template <class BOX> static bool mutate_read(Any* a, const std::string& cls, int P) {
     BOX* b = static_cast<BOX*>(a);
     Any* f = make(cls, P); Integer p = toI(static_cast<BOX*>(f)->d.characteristic()); delete f;
@@ -518,6 +527,13 @@ template <class BOX> static bool mutate_read_plain(Any* a, const std::string& cl
     return true;
 }
 #define MUT_READ(NAME, T) if (cls == NAME) return mutate_read<RINGBOX(T) >(a, cls, P);
+#define MUT_BAD(NAME, T) if (cls == NAME) return mutate_read_bad<RINGBOX(T) >(a, cls, q);
+static bool mutate_bad(const std::string& cls, Any* a, int q) {
+    MUT_BAD("Modular<int32_t>", Modular<int32_t>) MUT_BAD("Modular<uint32_t>", Modular<uint32_t>) MUT_BAD("Modular<int64_t>", Modular<int64_t>) MUT_BAD("Modular<uint64_t>", Modular<uint64_t>)
+    MUT_BAD("Modular<float>", Modular<float>) MUT_BAD("Modular<double>", Modular<double>) MUT_BAD("Modular<int16_t>", Modular<int16_t>) MUT_BAD("Modular<uint16_t>", Modular<uint16_t>)
+    MUT_BAD("Modular<Integer>", Modular<Integer>) MUT_BAD("Modular<Log16>", Modular<Log16>)
+    return false;
+}
 static bool mutate(const std::string& cls, Any* a, int P) {
     P &= 3;
     MUT_READ("Modular<int32_t>", Modular<int32_t>) MUT_READ("Modular<uint32_t>", Modular<uint32_t>) MUT_READ("Modular<int64_t>", Modular<int64_t>)
